@@ -741,11 +741,11 @@ func runC03(ctx *core.Ctx) {
 		ctx.Count("port-exhaustive")
 		ctx.Add("c03.parsePort", sArg{s})
 	})
-	allStrings([]string{"a", ".", "/", "b"}, ctx.Pick(7, 9), func(s string) {
+	allStrings([]string{"a", ".", "/", "b"}, ctx.Pick(6, 9), func(s string) {
 		ctx.Count("pathclean-exhaustive")
 		ctx.Add("c03.pathClean", sArg{s})
 	})
-	allStrings([]string{"1", "25", "0", ".", ":", "f", "%", "::", "1.2.3.4"}, ctx.Pick(5, 7), func(s string) {
+	allStrings([]string{"1", "25", "0", ".", ":", "f", "%", "::", "1.2.3.4"}, ctx.Pick(4, 6), func(s string) {
 		ctx.Count("ip-exhaustive")
 		ctx.Add("c03.validIP", sArg{s})
 	})
@@ -760,7 +760,7 @@ func runC03(ctx *core.Ctx) {
 		for _, host := range append([]*rangeA{nil}, rangesOf(3, true)...) {
 			for _, cont := range rangesOf(3, ip == nil) {
 				for _, proto := range append(append([]*string{}, protoForms...), sp("http")) {
-					if !ctx.Thorough() && ip != nil && host != nil && host.Hi != nil && proto != nil && *proto != "udp" {
+					if !ctx.Thorough() && (ip != nil || host != nil) && (nPortAst+len(ipForms))%4 != 0 && proto != nil && *proto != "udp" {
 						continue // quick tier: thin out the full product
 					}
 					nPortAst++
@@ -812,7 +812,7 @@ func runC03(ctx *core.Ctx) {
 		}
 		return string(rs)
 	}
-	for i := 0; i < ctx.Pick(20000, 400000); i++ {
+	for i := 0; i < ctx.Pick(8000, 300000); i++ {
 		a := rndPortAST(ctx)
 		ctx.Count("portspec-random")
 		ctx.Add("c03.portSpec", map[string]any{"ast": a})
@@ -831,7 +831,7 @@ func runC03(ctx *core.Ctx) {
 	}
 
 	// 4. transform.Canonical on trees: mostly valid, then a malformed stream (one node replaced by a value of a random kind)
-	for i := 0; i < ctx.Pick(6000, 150000); i++ {
+	for i := 0; i < ctx.Pick(4000, 120000); i++ {
 		t := g.tree()
 		ign := ctx.Rng.Intn(4) == 0
 		ctx.Count("canonical-valid")
@@ -852,7 +852,7 @@ func runC03(ctx *core.Ctx) {
 	}
 
 	// 5. decoders
-	for i := 0; i < ctx.Pick(20000, 300000); i++ {
+	for i := 0; i < ctx.Pick(10000, 300000); i++ {
 		typ := decodeTypes[i%len(decodeTypes)]
 		ctx.Count("decode:" + typ)
 		ctx.Add("c03.decode", map[string]any{"type": typ, "v": core.EncodeVal(g.decodeInput(typ))})
@@ -861,7 +861,7 @@ func runC03(ctx *core.Ctx) {
 	// 6. metamorphic oracle on whole loads: short document vs long document; near-miss documents
 	pg := pairGen{ctx, false}
 	pg.nearMisses()
-	for i := 0; i < ctx.Pick(1500, 40000); i++ {
+	for i := 0; i < ctx.Pick(1200, 30000); i++ {
 		pg.one(i)
 	}
 	xg := pairGen{ctx, true}
